@@ -553,6 +553,11 @@ def run(ctx):
             for l in out.splitlines():
                 if l.startswith("E7-NOTIFY-BAD "):
                     ctx.violation("notify:" + l.split()[2], "notification content: " + l[14:], "harness line: %s\n" % l)
+                elif l.startswith("E7-PREPUT-BAD "):
+                    # the config update that precedes every third gated case was itself refused: the "after a config
+                    # update" leg did not run as described (machinery or /config changed) - a broken tie, not a replay
+                    if "preput" not in [b.split(":")[0] for b in ctx.broken_ties]:
+                        ctx.broken_ties.append("preput: " + l[14:])
                 elif l.startswith("E7-"):
                     ctx.corr.setdefault("distribution", []).append(l)
             ops = open(opsp).read().splitlines()
